@@ -125,6 +125,12 @@ def corruptions(ev):
     add('reader stoichiometry', 'ReadBack', lambda t: t[rg]['rx'][0]['rhs'][0].__setitem__(0, 3))
     add('reader drops a reaction (with species)', 'ReadBack', lambda t: t[rg]['rxo'].pop())
     add('reader raised', 'ReaderRaises', lambda t: t[rg].update({'raised': 'KeyError: x'}))
+    def wit_ts(t, ev_i, rx_i):            # initial-state value: enters barrier and reaction change
+        w = t[ev_i]['wit'][rx_i]['w'][0]
+        w['is'][0][1] = [w['is'][0][1][0] + 90000000, w['is'][0][1][1]]
+    add('species-level initial-state value (surf.inp)', 'Num_Ea_Species', lambda t: wit_ts(t, s, 1))
+    add('species-level initial-state value (EAs.inp)', 'Num_EA_Species', lambda t: wit_ts(t, eas, 1))
+    add('printed Ea of gas reaction vs species', 'Num_Ea_Species', lambda t: tok_num(t[g]['lines'][line_with(g, 'A2=2B')][3], t[g]['lines'][line_with(g, 'A2=2B')][3]['v'][0] + 2))
     add('expected partition of the TLC case', 'ReplayDoc', lambda t: t[0]['exp'].update({'gasrx': [0, 1, 1]}))
     add('expected EA count of the TLC case', 'ReplayDoc', lambda t: t[0]['exp'].update({'neas': 3}))
     return C
